@@ -16,6 +16,7 @@ FILES = [
     ("e/w.py", "Python", [45]),                 # top-level folder with a one-character name
     ("-gen/v.js", "JavaScript", [29, 75]),      # a folder name that sorts before './'
     ("src/deep/er/q.py", "Python", []),         # a file without functions below folders that hold no other file
+    ("cafe\u0301/me\u0301nu.py", "Python", [20]),  # names in decomposed Unicode form (as macOS hands them out): keys and names stay as given
 ]
 
 
